@@ -22,6 +22,13 @@ def make_project(seed, nfiles, workdir, size=0.8):
     # near-miss values: the same text with one blank, two blanks and a tab; values ending in a backslash
     files.append(('src/twins/Spaces.java', b'class Spaces {\n  String two = "p  q";\n  String one = "p q";\n  String tab = "p\tq";\n  String bs = "C:\\\\docs\\\\";\n'
                   b'  /** @author John  Doe */\n  void alpha() { helper("a  b"); }\n  /** @author John Doe */\n  void beta() { helper("a b"); }\n}\n'))
+    # lines that are long in BYTES but not in characters (and the reverse is impossible): CJK / Cyrillic literals and
+    # comments of 60..150 characters, next to ASCII lines of 100..400 bytes -- what a width limit on printed code meets
+    wide = 'class Wide {\n'
+    for k, (ch, n) in enumerate([('漢', 60), ('字', 100), ('я', 150), ('ж', 85), ('😀', 45), ('é', 158), ('x', 159), ('x', 160), ('x', 161), ('y', 400)]):
+        wide += '  String w%d = "%s"; // %s\n' % (k, ch * n, ch * (n // 2))
+    wide += '  void wideBody() { helper("%s", "%s"); /* %s */ }\n}\n' % ('漢' * 70, 'я' * 120, 'ж' * 90)
+    files.append(('src/twins/Wide.java', wide.encode('utf-8')))
     proj = workdir + '/proj'
     qrun.write_project(proj, files)
     return proj, files
